@@ -145,14 +145,14 @@ Proof. vm_compute. repeat split; reflexivity. Qed.
 (* ---------------------------------------------------------------------------------------------------------------
    Conditions over a to-many collection (Model/C01Coll.v): queries over G whose `if` part is a conjunction of atoms about
    g.members = Set(P) - exists(m for m in g.members if c) / g.members and their negations (EXISTS / NOT EXISTS), v in /
-   not in (m.a for m in g.members if c) and v in / not in g.members.a (IN / NOT IN subqueries with the translator's
-   IS NOT NULL checks), not (v in (...)) (NOT IN without the check), scalar conditions mentioning
+   not in (m.a for m in g.members if c), v in / not in g.members.a and not (v in (...)) (IN / NOT IN subqueries with the
+   translator's IS NOT NULL checks), scalar conditions mentioning
    count(m for m in g.members if c) (SELECT COUNT(DISTINCT m.id) subquery), and plain scalar conditions over g.
    [xtruth] is the relational meaning of the emitted subquery shape, [holds] the Python meaning of the atom over the
    object graph: None members of the collection never match, a None left operand makes the comparisons unknown.
    Domain: the inner / outer scalar expressions are in the domain of the expression theorems on the rows they are
-   evaluated on ([atom_dom]); known bad: `not (v in (...))` over a collection that holds a None (finding
-   not-over-in-collection-lacks-null-check). *)
+   evaluated on ([atom_dom]); nothing else is excluded (the defect not-over-in-collection-lacks-null-check found with this
+   model was repaired in repo commit 2e4b5c8). *)
 Theorem C01_collection_atom_except_known : forall d, modelled d = true ->
   forall params db, pk_ok (tP db) = true ->
   forall g x c, atom_typed x = true -> atom_dom d params db g x -> tr_atom d x = Some c ->
